@@ -114,7 +114,10 @@ impl StateMachine<'_> {
 
     #[inline]
     fn test_diff_header_plus_line(&self) -> bool {
-        (matches!(self.state, State::DiffHeader(_)) || self.source == Source::DiffUnified)
+        // A plain `diff -u` has no other header line, but its `--- ` line has put the state machine
+        // into DiffHeader, so no test for the source is needed here: an added line `++ ...` of a
+        // hunk (`+++ ...` in the input) is never a file header.
+        matches!(self.state, State::DiffHeader(_))
             && (self.line.starts_with("+++ ")
                 || self.line.starts_with("rename to ")
                 || self.line.starts_with("copy to "))
